@@ -315,6 +315,37 @@ def run_ptr(chk):
         clause("unique:unpack", upf, okk, ut, "read the flag; iff it is 1 create the object and unpack into it")
 
 
+def run_lvalue(chk, fx):
+    """C11.lvalue: what serializeOp hands to the serializer designates the object's own storage."""
+    r = chk.rule("C11.lvalue", "every argument a serializeOp hands to the serializer is an lvalue of the object's own state - a member, a dereferenced member pointer, *this seen as a base through a REFERENCE cast, a call that returns a reference, a local of the hand-written split helpers - never a temporary (a by-value cast such as static_cast<std::string>(*this), a constructor expression, an arithmetic result): packing a temporary writes the right bytes, unpacking fills the temporary and leaves the object untouched", floor=1500)
+    for f in fx.fns:
+        if f["n"] != "serializeOp" or not f.get("body"):
+            continue
+        sp = [p_["n"] for p_ in f["params"]][:1]
+        for n in walk(f["body"]):
+            args = None
+            if n["k"] == "Call" and (n.get("callee") or {}).get("n") in sp:
+                args = n.get("a") or []
+            elif n["k"] == "OpCall" and n.get("op") == "()" and n.get("a") and (n["a"][0] or {}).get("n") in sp:
+                args = n["a"][1:]
+            if args is None:
+                continue
+            for a in args:
+                k = a.get("k")
+                t = (a.get("t") or "")
+                bad = None
+                if k == "Cast" and not t.rstrip().endswith("&") and a.get("ck") in ("static", "functional", "cstyle", "const", "reinterpret", None) and not t.rstrip().endswith("*"):
+                    inner = strip(a["c"][0]) if a.get("c") else {}
+                    # an lvalue-to-rvalue or no-op cast printed without a target type is not a conversion
+                    if t and "dependent" not in t and (t != (inner.get("t") or "") or inner.get("k") in ("Ctor", "Temp")):
+                        bad = "a by-value conversion to `%s`" % t
+                elif k in ("Ctor", "Temp", "Bin", "Int", "Flt", "Str", "Cond", "InitList"):
+                    bad = "a temporary (%s)" % k
+                chk.instance(r, "%s@%s:%s" % (f["q"], a.get("l"), show(a)[:40]), sample=dict(function=f["q"], argument=show(a)[:80], kind=k))
+                if bad:
+                    chk.violation(r, "%s:%s" % (f["q"], show(a)[:50]), "%s hands the serializer `%s`, %s: when the object is unpacked the transferred value lands in that temporary and the object keeps what it had (an empty string, a default) - pack size and byte count stay right, so nothing throws" % (f["q"], show(a)[:80], bad), f["file"], a.get("l") or n["l"])
+
+
 def run_driver(chk):
     """C11.phase: the generic Serializer's drivers reset the per-pass state before every pass over the data."""
     r = chk.rule("C11.phase", "Serializer::pack/unpack (all overloads): every pass over the data - each call that receives the driver's argument - is preceded, since the previous pass, by an assignment of the operation, by a reset of the shared-pointer map (the first pass: unless every driver ends with one) and by a reset of the counter that pass advances (PACKSIZE: the size, PACK/UNPACK: the position); the PACK pass is preceded by the resize of the buffer to the computed size", floor=6)
@@ -638,6 +669,7 @@ def run_packer(chk):
 def run(chk):
     units = core.library_units()
     fx = chk.facts(units, files_re="^/repo/opm/", fn_re=r"::(serializeOp|operator==)$", rest_light=True)
+    run_lvalue(chk, fx)
     exempt = {(e["class"], e["member"]): e for e in core.load_table("c11_exempt.json")["exempt"]}
     used_exempt = set()
 
